@@ -88,8 +88,8 @@ func c02r1(r *R) {
 	// status line format
 	okFmt := false
 	for _, c := range calls(fn, nameIs("fmt.Fprintf")) {
-		f, _ := constString(c.Common().Args[1])
-		va := variadicArgs(c.Common().Args[2])
+		f, _ := constString(refArgs(c.Common())[1])
+		va := variadicArgs(refArgs(c.Common())[2])
 		okFmt = f == "HTTP/%d.%d %03d %s\r\n" && len(va) == 4 && describe(va[0]) == "$1.ProtoMajor" && describe(va[1]) == "$1.ProtoMinor" && describe(va[2]) == "$1.StatusCode"
 	}
 	r.check(okFmt, "writeHeaderOnlyResponse#status-line", fn.Pos(), "HTTP/major.minor code reason CRLF from the response's own fields", "status line is not built from the response's protocol version and status")
